@@ -19,10 +19,10 @@ type chanPeer struct {
 	wr chan<- wamp.Message
 }
 
-func (p *chanPeer) IsLocal() bool               { return false }
-func (p *chanPeer) Recv() <-chan wamp.Message   { return p.rd }
-func (p *chanPeer) Send() chan<- wamp.Message   { return p.wr }
-func (p *chanPeer) Close()                      { close(p.wr) }
+func (p *chanPeer) IsLocal() bool             { return false }
+func (p *chanPeer) Recv() <-chan wamp.Message { return p.rd }
+func (p *chanPeer) Send() chan<- wamp.Message { return p.wr }
+func (p *chanPeer) Close()                    { close(p.wr) }
 
 // NewUnbufferedSess creates a session whose router-to-client queue has no
 // buffer at all.
